@@ -436,6 +436,17 @@ int main(int argc, char** argv) {
     if (!R.want(key)) return;
     Explorer ex(R); ex.programs = programs; ex.key = key; ex.cap = cap;
     for (size_t t = 0; t < programs.size(); ++t) ex.reference.push_back(programs[t].size() == 1 ? ref1[programs[t][0]] : ref_of(programs[t]));
+    if (!a.replay.empty() && a.only.compare(0, 9, "schedule=") == 0) {
+      // replay exactly one recorded schedule, twice: the observations must be identical before the verdict is trusted
+      std::vector<int> pfx = parse_prog(a.only.substr(9));
+      if (a.only.size() == 9) pfx.clear();
+      Exec e1 = fork_run(programs, pfx), e2 = fork_run(programs, pfx);
+      bool same = e1.raw == e2.raw;
+      if (!R.judge("replayed_schedule_is_deterministic", same ? 0 : 1, 0.5, key)) R.fail("replayed_schedule_is_deterministic", key, 1, 0, "{}");
+      ex.check(e1, pfx);
+      ++R.states;
+      return;
+    }
     long prev = -1;
     int completed = -1;
     bool exhausted_cfg = false;
